@@ -364,7 +364,7 @@ def positive_control(ctx):
             f.write(FIXTURE_IKESA)
         with open(os.path.join(d, 'message.py'), 'w') as f:
             f.write(FIXTURE_MESSAGE)
-        c2 = Ctx('C20', root=d, quiet=True)
+        c2 = Ctx('C20', root=d, quiet=True, normalise=False)
         sec = Secrets(c2.prog, c2.res)
         viol, debug, counts = scan(c2, c2.prog, c2.res, sec, strict=False)
     msgs = [v[3] for v in viol]
